@@ -21,6 +21,8 @@ pub struct Hello {
     pub cwd: Vec<u8>,
     pub args: Vec<Vec<u8>>,
     pub stdin_null: bool,
+    /// the child's environment as received (NUL-separated NAME=value), without the simulation's own variables
+    pub env: Vec<u8>,
 }
 #[derive(Debug, Clone)]
 pub struct Point {
@@ -107,6 +109,7 @@ fn reader_thread(
                     args.push(unhex(it.next().unwrap_or("-")));
                 }
                 let stdin_null = it.next() == Some("STDIN0");
+                let env = if it.next() == Some("ENV") { unhex(it.next().unwrap_or("-")) } else { vec![] };
                 let _ = tx.send((
                     stamp(),
                     Ev::Hello(Hello {
@@ -117,6 +120,7 @@ fn reader_thread(
                         cwd,
                         args,
                         stdin_null,
+                        env,
                     }),
                 ));
             }
